@@ -23,6 +23,11 @@ def cases(draw, max_steps=14):
     # relation holds whatever convention assigns such a frame to the time axis
     if draw(st.sampled_from([False, False, True])):
         scn["forcing"]["offgrid"] = draw(st.lists(st.sampled_from([0, 1, 20, 30, 59]), min_size=1, max_size=4))
+    # velocity packed as 16-bit integers over the whole integer range (strong currents saturate at -32768 / 32767)
+    if draw(st.sampled_from([False, False, True])):
+        scn["forcing"]["packed"] = draw(st.sampled_from([0.4, 0.7, 0.95]))
+        scn["forcing"]["temp"] = False
+        scn["pvars"] = [v for v in scn["pvars"] if v != "temp"]
     return scn
 
 
@@ -54,6 +59,12 @@ def oracle(scn) -> core.CaseResult:
         A = records(da, e2e.list_outputs(da))
         B = records(db, e2e.list_outputs(db))
     S = ma["start"]
+    tol = TOL
+    if scn["forcing"].get("packed"):
+        # both runs compute in 32-bit floats and interpolate in time from opposite ends: per step a velocity
+        # difference of a few (gap + 4) float32 roundings of |u| <= 2 m/s, accumulated over the run
+        res.cls("velocity_packed_full_int16_range")
+        tol = 4 * (max(scn["forcing"]["gaps"]) + 4) * 2.0**-23 * 2.0 * (sim.DT / sim.DX) * (scn["time"]["nsteps"] + 1)
     dt = np.timedelta64(sim.DT, "s")
     p = scn["output"]["period"]
     res.check(len(A) == len(B), "record_count", f"{len(A)} records reversed, {len(B)} forward")
@@ -69,7 +80,7 @@ def oracle(scn) -> core.CaseResult:
             first_seen.setdefault((int(ra_["pid"][i]), int(tg)), k)
         bad = None
         for var in ("X", "Y", "Z", "tag", "age", "temp"):
-            if var in ra_ and not np.allclose(ra_[var], rb_[var], rtol=TOL, atol=TOL, equal_nan=True):
+            if var in ra_ and not np.allclose(ra_[var], rb_[var], rtol=tol, atol=tol, equal_nan=True):
                 bad = var
                 break
         if not res.check(bad is None, "position" if bad in ("X", "Y", "Z") else "state_value",
